@@ -640,6 +640,7 @@ Cases2 ==
   IF FAMILY = "sched" THEN SchedCases \cup SchedBigCases
   ELSE IF FAMILY = "fault" THEN FaultCases \cup FaultBigCases
   ELSE IF FAMILY = "seq" THEN SeqCases \cup SeqHugeCases
+  ELSE IF FAMILY = "huge" THEN SeqHugeCases          \* a frame above 1 MiB followed by two more on the same stream (thorough tier only)
   ELSE IF FAMILY = "first" THEN {x \in FirstCases : FirstValid(x)}
   ELSE IF FAMILY = "wf" THEN WfPublishCases \cup WfSubscribeCases \cup WfFilterCases \cup WfWireCases
   ELSE IF FAMILY = "render" THEN RenderCases
